@@ -70,7 +70,8 @@ fn run(sim: &Sim, cfg: &RunCfg) -> RunOut {
     }
 }
 
-fn run_v<V: VringT<GM<()>> + Clone + Send + Sync + 'static>(sim: &Sim, _cfg: &RunCfg) -> RunOut {
+fn run_v<V: VringT<GM<()>> + Clone + Send + Sync + 'static>(sim: &Sim, cfg: &RunCfg) -> RunOut {
+    let deep = cfg.tier == Tier::Thorough;
     sim.st().hot = vec![
         "ctl.enable.state_changed",
         "ctl.stop.state_changed",
@@ -93,7 +94,7 @@ fn run_v<V: VringT<GM<()>> + Clone + Send + Sync + 'static>(sim: &Sim, _cfg: &Ru
         } else {
             vec![0b01, 0b10]
         };
-        let n = t.range(1, 6);
+        let n = t.range(1, if deep { 12 } else { 6 });
         let mut ctls = Vec::new();
         for _ in 0..n {
             let r = t.draw(nrings as u64) as usize;
@@ -104,7 +105,7 @@ fn run_v<V: VringT<GM<()>> + Clone + Send + Sync + 'static>(sim: &Sim, _cfg: &Ru
                 _ => Ctl::ResetReenable,
             });
         }
-        let nk = t.range(1, 6);
+        let nk = t.range(1, if deep { 12 } else { 6 });
         let kr: Vec<usize> = (0..nk).map(|_| t.draw(nrings as u64) as usize).collect();
         (adapter, masks, nrings, ctls, nk, kr, t.chance(1, 2))
     });
